@@ -297,6 +297,27 @@ impl ASN1Type {
         }
     }
 
+    /// The tag of the alternative that a selection type selects, if the alternative is tagged
+    pub fn selected_alternative_tag(
+        &self,
+        tlds: &BTreeMap<String, ToplevelDefinition>,
+    ) -> Option<AsnTag> {
+        match self {
+            ASN1Type::ChoiceSelectionType(c) => match tlds.get(&c.choice_name) {
+                Some(ToplevelDefinition::Type(ToplevelTypeDefinition {
+                    ty: ASN1Type::Choice(choice),
+                    ..
+                })) => choice
+                    .options
+                    .iter()
+                    .find(|o| o.name == c.selected_option)
+                    .and_then(|o| o.tag.clone()),
+                _ => None,
+            },
+            _ => None,
+        }
+    }
+
     pub fn link_choice_selection_type(
         &mut self,
         tlds: &BTreeMap<String, ToplevelDefinition>,
